@@ -15,6 +15,7 @@ open Common
         9 node_global NAME OPT(last_import_end) code_start s e -> OPT(CHANGE)
        10 vms_all kw_end count (a b)* -> count CHANGE*  11 vms_spec start        -> CHANGE
        12 curly_attr_repaired s e V  -> OPT(CHANGE)     13 spread_repaired prev_end rbrace_end -> CHANGE
+       14 boolean_repaired OPT(prev_end) eq_start expr_end OPT(next char) -> CHANGE
      pred          TAG STR                  -> 0/1
         1 jsx_attr_string  2 jsx_text  3 ident  4 import line (leading nl)  5 import line (trailing nl)  6 import line (no nl)
         7 braces balanced                                                                                   *)
@@ -61,6 +62,8 @@ let run_build () =
   | 12 -> let s = read_n () in let e = read_n () in let v = read_str () in
           out_opt (fun t -> out_change ((s, e), t)) (FixBuilders.curly_attr_fix_repaired v)
   | 13 -> let p = read_n () in let e = read_n () in out_change (FixBuilders.spread_change_repaired p e)
+  | 14 -> let p = read_opt read_n in let q = read_n () in let e = read_n () in let nx = read_opt read_n in
+          out_change (FixBuilders.boolean_change_repaired p q e nx)
   | _ -> failwith "build tag"
 
 let run_pred () =
